@@ -181,6 +181,17 @@ func (s *vpStore) notify() {
 	}
 }
 
+// closeWatchers: the server tears down every watch subscription (the update channels are closed).
+func (s *vpStore) closeWatchers() {
+	for _, w := range s.watchers {
+		if w.stopped || w.closed {
+			continue
+		}
+		w.closed = true
+		close(w.ch)
+	}
+}
+
 type vpEntry struct {
 	k   string
 	v   []byte
